@@ -58,6 +58,41 @@ ENVS = {
 }
 
 
+from lerax.wrapper.misc import IdentityState  # noqa: E402
+
+
+class SpyState(IdentityState):
+    ok: jax.Array
+
+
+class ActionSpy(W.Identity):
+    """Seam between the wrapper stack and the environment proper: notes whether the action that actually reaches the
+    environment is a member of ITS action space (Box bounds, with one affine map's worth of float32 slack)."""
+
+    def initial(self, *, key):
+        return SpyState(self.env.initial(key=key), jnp.array(True))
+
+    def transition(self, state, action, *, key):
+        sp = self.env.action_space
+        ok = jnp.array(True)
+        if isinstance(sp, Box):
+            a = jnp.asarray(action, dtype=float)
+            lo, hi = jnp.asarray(sp.low, dtype=float), jnp.asarray(sp.high, dtype=float)
+            tol = 1e-4 * jnp.where(jnp.isfinite(hi - lo), hi - lo, 1.0)
+            ok = jnp.all((a >= lo - tol) & (a <= hi + tol)) & ~jnp.any(jnp.isnan(a))
+        return SpyState(self.env.transition(state.env_state, action, key=key), ok)
+
+
+def spy_flag(state):
+    s = state
+    while True:
+        if isinstance(s, SpyState):
+            return s.ok
+        if not hasattr(s, "env_state"):
+            return jnp.array(True)
+        s = s.env_state
+
+
 def make_env(cls: dict):
     mod, name = ENVS[cls["env"]]
     ctor = getattr(importlib.import_module(mod), name)
@@ -67,6 +102,8 @@ def make_env(cls: dict):
 
         kwargs["solver"] = diffrax.Tsit5()
     env = ctor(**kwargs)
+    if cls.get("stack") and any(sp[0] in ("ClipAction", "RescaleAction") for sp in cls["stack"]):
+        env = ActionSpy(env)
     for spec in cls.get("stack", []):
         if spec[0] == "TimeLimit":
             env = W.TimeLimit(env, int(spec[1]))
@@ -242,6 +279,7 @@ class Runner:
                 "obs_eq": jnp.where(done, True, jnp.all(jnp.abs(obs_flat - o_c_flat) <= self.tol * jnp.maximum(1.0, jnp.abs(o_c_flat)))),
                 "fresh": jnp.where(done, new_state.unwrapped.t == 0, new_state.unwrapped.t > state.unwrapped.t),
                 "obs_absmax": jnp.max(jnp.abs(jnp.where(jnp.isfinite(obs_flat), obs_flat, 0.0))),
+                "inner_action_ok": spy_flag(succ),
                 "at_corner": jnp.any(a == env.action_space.low) | jnp.any(a == env.action_space.high) if isinstance(env.action_space, Box) else jnp.array(False),
             }
             return (new_state,), (out, obs if self.cls.get("keep_obs", False) else None)
@@ -317,6 +355,12 @@ class Runner:
                     res.fail("C02", "action_sample_in_space", "generated_action_outside_action_space", env=name, mode=op["mode"])
                 else:
                     res.ok("C02", "action_sample_in_space", L)
+                # a member of the stack's declared action space is ACCEPTED: what reaches the environment is a member of its space
+                if not np.all(outs["inner_action_ok"]):
+                    res.fail("C02", "action_accepted", "member_of_declared_action_space_reaches_environment_outside_its_space", env=name,
+                             step=int(np.argmin(outs["inner_action_ok"])), mode=op["mode"])
+                else:
+                    res.ok("C02", "action_accepted", L)
             if "C01" in props:
                 if self.physics:
                     # tolerate isolated numerical blips of the contact solver (see __init__): at most 5 % of the steps
